@@ -26,8 +26,8 @@ CONSTANTS
   P_STAT = {0, 1, 2}
   P_CHAL = {0, 1, 2}
   STAGES = {"1", "2", "3"}
-  SIGS = {"g1", "g2", "x1", "junk", "empty", "nil"}
-  RESPS = {"nil", "r1", "rw", "rj"}
+  SIGS = {"g1", "g2", "g3", "x1", "junk", "empty", "nil"}
+  RESPS = {"nil", "r1", "r2", "rw", "rj"}
   IDS = {1, 2}
   HASHC = {"good", "bad"}
   FOREIGN = TRUE
